@@ -1,6 +1,8 @@
 //! Kani proof harnesses. One solver query per harness; names are `<cid>_<tier>_<what>`.
 pub mod common;
 pub mod c01;
+pub mod c04;
+pub mod c05;
 pub mod c09;
 pub mod c14;
 pub mod registry;
